@@ -136,3 +136,15 @@ Definition pipe_ok (fs : list pfunc) (v : bool) (accepted : bool) : bool :=
   if negb v then accepted                                            (* nothing is rejected when validation is off *)
   else if forallb (fun e => subb (fst e) (snd e)) (spec_edges fs) then accepted   (* every edge compatible: never rejected *)
   else negb accepted.                                                (* an incompatible edge: rejected *)
+
+(* ---------- side conditions of the pipeline theorems ---------- *)
+Definition fn_wf (f : pfunc) : bool :=
+  wf (f_ret f) && forallb (fun pa => match snd pa with Some t => wf t | None => true end) (f_params f).
+
+Definition pipe_guard (fs : list pfunc) : bool :=
+  forallb fn_wf fs                                   (* annotations in the normal form typing builds *)
+  && forallb (fun f => notv (f_ret f)) fs           (* outside known finding typevar-source-accepted *)
+  && forallb (fun f => match f_ms f with            (* outside known finding reduced-array-output-not-wrapped *)
+                       | Some _ => negb (is_object_array_type (f_ret f))
+                       | None => true
+                       end) fs.
